@@ -12,7 +12,7 @@ LEVEL_TEXT = ("The finite space length 0..223 x 8 sequence-counter states is enu
 TECHNIQUE = "exhaustive enumeration (length x counter) with a frame-validity predicate and decode round trip; Hypothesis message lists"
 RULE = ("(a) every length 0..223 x every counter state 0..7 x fillings through encode_ebyte/usb/yacht_devices of an encoder whose per-PGN "
         "payload function is stubbed on the instance (PGN 126720/130816 fallbacks); (b) every encodable fast-packet definition with "
-        "generated accepted values through the unstubbed path; (c) Hypothesis lists of 1..20 consecutive messages over one or several streams, into decoders that are fresh or pre-loaded with 7..4100 abandoned partial messages, with and without real time passing between frames; non-trivial = length on "
+        "generated accepted values through the unstubbed path; (c) Hypothesis lists of 1..20 consecutive messages over one or several streams, into decoders that are fresh or pre-loaded with 7..4100 abandoned partial messages, with and without real time passing between frames; (d) long runs on one decoder (up to 262k frames quick / 400k thorough) in which otherwise idle streams start a message on the (k*P-1)-th, (k*P)-th and (k*P+1)-th frame the decoder has seen, P = 2^4..2^17 and powers of ten; non-trivial = length on "
         "a frame boundary (<=6, 6+7k, 6+7k+-1, 223) or counter >= 6 or a list with wrap; distinct = (pgn, length, counter, filling, format)")
 ASSUMPTIONS = [
     "arbitrary payload bytes are observable only through the BINARY field of the proprietary fallback definitions; payloads of >= 2 bytes "
@@ -285,7 +285,75 @@ def _lists(ctx: Ctx, item):
             max_examples=n_hyp, name="lists")
 
 
+def tick_history(period, ks, report):
+    """One decoder sees a long run of fast-packet frames. Three otherwise idle streams start a message on the (k*period-1)-th, (k*period)-th
+    and (k*period+1)-th frame the decoder has ever seen; every message (also of the busy filler stream) must be delivered.
+    report(bucket, what) is called for every discrepancy."""
+    from nmea2000.decoder import NMEA2000Decoder
+    dec = NMEA2000Decoder()
+    count = 0
+    seqs = {}
+
+    def send(pgn, src, dest, payload, frames=None, only=None):
+        """Feed the frames (or the slice `only`) of one message; -> last result."""
+        nonlocal count
+        r = None
+        for fr in frames[only] if only is not None else frames:
+            count += 1
+            r = dec.decode_tcp(wire.ebyte(wire.ident(pgn, src, dest, 3), fr))
+        return r
+
+    def fresh(key, payload):
+        seqs[key] = (seqs.get(key, -1) + 1) % 8
+        return wire.segment(payload, seqs[key])
+
+    def verify(r, pgn, payload, what):
+        if r is None:
+            report("C03|ebyte|long-run|not-delivered", f"{what}: no message after the last frame")
+        elif r.id != fp.fallback_id(pgn) or fp.recon(r) != int.from_bytes(payload, "little"):
+            report("C03|ebyte|long-run|payload", f"{what}: wrong message or payload")
+
+    msgno = 0
+    f2 = fp.header(130816, 1) + bytes(8)            # 10 bytes: two frames
+    f1 = fp.header(130816, 2) + bytes(3)            # 5 bytes: one frame
+    for k in ks:
+        target = k * period
+        # busy stream up to two frames before the target
+        while count < target - 2:
+            left = target - 2 - count
+            pl = f2 if left >= 2 else f1
+            pl = pl[:2] + bytes([msgno & 0xFF]) * (len(pl) - 2)
+            msgno += 1
+            verify(send(130816, 2, 255, pl, fresh("f", pl)), 130816, pl, f"busy stream message {msgno} (frame {count} of the run)")
+        idle = []
+        for j in range(3):
+            pl = fp.header(126720, 3 + j) + bytes([k & 0xFF, j, 0xA5]) * 5          # 17 bytes: three frames
+            frames = fresh(("r", j), pl)
+            idle.append((j, pl, frames))
+            if send(126720, 10 + j, 5, pl, frames, slice(0, 1)) is not None:
+                report("C03|ebyte|long-run|early-delivery", f"message returned at a first frame (frame {count} of the run)")
+        for j, pl, frames in idle:
+            verify(send(126720, 10 + j, 5, pl, frames, slice(1, None)), 126720, pl,
+                   f"idle stream {j}: message whose first frame was frame number {target - 1 + j} seen by the decoder")
+    return count
+
+
+def _ticks(ctx: Ctx, item):
+    period, ks = item
+    found = []
+    n = tick_history(period, ks, lambda b, w: found.append((b, w)))
+    ctx.count(n)
+    ctx.nontrivial_extra += len(ks) * 3
+    ctx.klass("long_run_frames", n)
+    ctx.klass("long_run_idle_stream_messages", len(ks) * 3)
+    for b, w in found[:5]:
+        ctx.report(b, w + f" (period {period})", {"ticks": period, "ks": list(ks)})
+
+
 def run(ctx: Ctx):
+    # long runs: messages that start on the 2^e-th (+-1) frame a decoder sees, on streams idle since the previous such point
+    periods = [2 ** e for e in range(4, 18)] + ([1000, 10000, 100000, 50000] if not ctx.quick else [10000])
+    pmap(ctx, _ticks, [(p, (1, 2) if ctx.quick or p > 70000 else (1, 2, 3, 4)) for p in periods])
     pmap(ctx, _grid, [(c, ctx.quick, ctx.seed) for c in chunks(list(range(224)), 32)])
     ctx.exhaustive = True
     ctx.notes["exhaustive_space"] = "length 0..223 x counter state 0..7 x 3 frame formats" + (" x 1 filling" if ctx.quick else " x 4 fillings")
@@ -298,6 +366,10 @@ def run(ctx: Ctx):
 
 
 def replay(ctx: Ctx, case):
+    if "ticks" in case:
+        found = []
+        tick_history(case["ticks"], case["ks"], lambda b, w: found.append((b, w, case)))
+        return found[:5]
     from nmea2000.decoder import NMEA2000Decoder
     from nmea2000.encoder import NMEA2000Encoder
     if "definition" in case:
